@@ -333,7 +333,36 @@ fn cycle_programs() -> Vec<String> {
 
 /// child side: a cyclic import that is followed for ever ends the process (stack overflow), which
 /// no guard inside the process can turn into a verdict. Every program is announced on stderr first.
-pub fn child(_mode: &str) -> i32 {
+/// operators whose helpers the library builds on first use, each inside `depth` levels of a nesting form
+fn nested_text(op: usize, form: usize, depth: usize) -> String {
+    let core = [
+        "[true, false]~ $&&", "[true, false]~ $||", "[6, 3]~ $&", "[6, 3]~ $|", "[1, 2]~ $+", "[1.5]~ $+", "[\"a\"]~ $+", "[1, 2]~ $*", "[1, 2]~ @ (x: int) -> int { return x; } $]",
+        "[1, 2]~ ? (x: int) -> bool { return x > 1; } $]", "[1, \"a\"]~ ? int $]", "[1, 2]~ \\ (x: int) -> bool { return x > 1; }", "[1, 2]~ $ 0 (a: int, x: int) -> int { return a + x; }",
+    ][op % 13];
+    let (open, close) = [("[", "]"), ("{ ", " }"), ("if true { ", " }"), ("(1, ", ")")][form % 4];
+    format!("{}{core}{}", open.repeat(depth), close.repeat(depth))
+}
+
+pub fn child(mode: &str) -> i32 {
+    if let Some(rest) = mode.strip_prefix("nest:") {
+        // child side of the first-use-at-depth catalogue: one text, in a process that has used nothing yet
+        let nums: Vec<usize> = rest.split(':').filter_map(|n| n.parse().ok()).collect();
+        let (op, form, depth, stdlib) = (nums[0], nums[1], nums[2], nums.get(3).copied().unwrap_or(0) == 1);
+        let text = nested_text(op, form, depth);
+        let worker = std::thread::Builder::new().stack_size(1 << 30).spawn(move || {
+            let interp = if stdlib { Interpreter::with_stdlib() } else { Interpreter::without_stdlib() };
+            let first = std::panic::catch_unwind(std::panic::AssertUnwindSafe(|| Code::parse(&interp, &text).map(|c| c.return_type()).is_ok()));
+            // afterwards the operator works in the plain program too (a failed first use poisons nothing)
+            let plain = nested_text(op, 0, 0);
+            let second = std::panic::catch_unwind(std::panic::AssertUnwindSafe(|| Code::parse(&interp, &plain).is_ok()));
+            match (first, second) {
+                (Ok(_), Ok(true)) => 0,
+                (Ok(_), Ok(false)) => 4,
+                _ => 3,
+            }
+        });
+        return worker.ok().and_then(|w| w.join().ok()).unwrap_or(3);
+    }
     let dir = scratch_dir();
     for (name, body) in CYCLE_FILES {
         let _ = std::fs::write(dir.join(name), body);
@@ -358,6 +387,32 @@ pub fn child(_mode: &str) -> i32 {
     eprintln!("DONE\t{}", programs.len());
     cleanup_scratch();
     if panics > 0 { 1 } else { 0 }
+}
+
+/// One text in a fresh process: `depth` levels of a harmless nesting form around an operator whose helper
+/// the library builds on first use. Depths of this size do not exhaust the stack (the worker has 1 GiB).
+fn check_first_use_at_depth(case: &Json, stats: &mut Stats) -> Verdict {
+    use std::process::{Command, Stdio};
+    let (op, form, depth, stdlib) = (case["op"].as_u64().unwrap_or(0), case["form"].as_u64().unwrap_or(0), case["depth"].as_u64().unwrap_or(0), case["stdlib"].as_u64().unwrap_or(0));
+    let text = nested_text(op as usize, form as usize, depth as usize);
+    stats.eval();
+    stats.nontrivial(&text);
+    stats.label("first use of a lazily built helper inside a nested text (fresh process)");
+    let Ok(out) = Command::new("/proc/self/exe").args(["C03", "child", &format!("nest:{op}:{form}:{depth}:{stdlib}")]).stdin(Stdio::null()).stdout(Stdio::null()).stderr(Stdio::piped()).output() else {
+        return Verdict::Inconclusive("child process did not start");
+    };
+    match out.status.code() {
+        Some(0) => Verdict::Pass,
+        Some(2) => Verdict::Inconclusive("child watchdog"),
+        Some(4) => fail(
+            "C03:Code::parse:first-use-at-depth:poisoned",
+            format!("after `{}...` ({depth} levels) was parsed first in a fresh process, the plain `{}` is no longer accepted", &text[..text.len().min(60)], nested_text(op as usize, 0, 0)),
+        ),
+        code => fail(
+            "C03:Code::parse:first-use-at-depth",
+            format!("in a fresh process ({} interpreter), Code::parse of {depth} levels of `{}` around `{}` panicked or ended the process ({code:?}): {}", if stdlib == 1 { "stdlib" } else { "empty" }, ["[", "{", "if true {", "(1, "][form as usize % 4], nested_text(op as usize, 0, 0), String::from_utf8_lossy(&out.stderr).chars().take(200).collect::<String>()),
+        ),
+    }
 }
 
 fn check_import_cycles(stats: &mut Stats) -> Verdict {
@@ -541,6 +596,9 @@ impl Property for C03Prop {
         let src = case["src"].as_str().unwrap_or("?");
         if src == "import-cycles" {
             return check_import_cycles(stats);
+        }
+        if src == "first-use-at-depth" {
+            return check_first_use_at_depth(case, stats);
         }
         if nesting_depth(text) > 40 {
             return Verdict::Discard("nesting deeper than 40 (stack exhaustion is outside the claim)");
@@ -817,6 +875,17 @@ pub fn run(session: &Session) -> i32 {
         cases.push(json!({"src": "duplicate-names", "text": p}));
     }
     cases.push(json!({"src": "import-cycles", "text": ""}));
+    // (every depth from 100 to 135: a limit somewhere in that range shows as a panic of the helper's own parse)
+    for op in 0..13u64 {
+        for (form, depths) in [(0u64, (100..=135).collect::<Vec<u64>>()), (1, vec![30, 60, 90, 110, 120, 122, 124, 126, 128, 140]), (2, vec![40, 60, 62, 64, 80]), (3, vec![50, 100, 120, 125, 130])] {
+            for depth in depths {
+                if session.tier == Tier::Quick && form == 0 && depth % 3 != (op % 3) && !(118..=128).contains(&depth) {
+                    continue;
+                }
+                cases.push(json!({"src": "first-use-at-depth", "text": "", "op": op, "form": form, "depth": depth, "stdlib": (op + depth) % 2}));
+            }
+        }
+    }
     for p in import_programs() {
         cases.push(json!({"src": "imports", "text": p}));
     }
@@ -849,7 +918,7 @@ pub fn run(session: &Session) -> i32 {
         session.run_tapes(&C03, session.tier.of(60_000, 3_000_000), 400, 0);
     }
     let code = session.finish(
-        "(constant-folding: every pair of the i64 and f64 boundary grids under every foldable operator, and boundary ints in index, slice, length and propagated-binding positions) inputs fed to Code::parse (against an interpreter with stdlib and bound names, and against an empty one), Code::return_type, Error::to_string, Variable::from_str and Type::from_str: every sequence of 1-2 tokens (quick; 1-3 thorough) over a 138-token alphabet (all keywords, every operator, brackets, literal samples incl. a too-big int, bound and unbound identifiers, composite fragments) plus unfinished-construct prefixes x token x closer, random token sequences up to length 16/24, random derivations of the project's own pest grammar read at run time (start rules input/line/stm/expr/function/match/type/only_var/slicing; identifiers mapped onto bound names), token-level mutations (delete/duplicate/swap/replace/insert) of the README, docs and example scripts, the operator x operand-type matrix (every unary/postfix/statement template, every infix and assignment operator and 28 two-operand templates applied to parameters of 60 types incl. `!`, `any` and unions of arrays, tuples, structs, muts, functions and iterators), the same matrix over operands that are constants of a union static type and over operands whose type shrinks to `!` when a constant condition is folded away (`[v1, v2][k]`: every unary template x every catalogue value, every infix operator x all pairs of values of 30 scalar / union / any operand types), tape-generated typed programs of six profiles as they are and with token-level edits, a catalogue of names rebound from their own old (non-constant) value to a value of another type in every kind of body, 18 binding constructs x uses of the bound name after the construct, 33 spellings of integer literals in 30 positions, 10 always-failing constant operations in 28 syntactic positions, and imports of 13 file states (missing, directory, syntax error, type error, folding error, non-UTF-8, nested, empty, top-level return/break) in 11 positions, files that use names of their importer under importers that declare those names as cells, constants, parameters, at other types or not at all (both orders within one process), and (in a child process, whose death is the verdict) files that import themselves directly or through one or two others under several spellings of the path, next to diamonds and repeated imports. Oracle: no panic. Non-trivial = the text passes the grammar (reaches instruction construction); distinct by text.",
+        "(constant-folding: every pair of the i64 and f64 boundary grids under every foldable operator, and boundary ints in index, slice, length and propagated-binding positions) inputs fed to Code::parse (against an interpreter with stdlib and bound names, and against an empty one), Code::return_type, Error::to_string, Variable::from_str and Type::from_str: every sequence of 1-2 tokens (quick; 1-3 thorough) over a 138-token alphabet (all keywords, every operator, brackets, literal samples incl. a too-big int, bound and unbound identifiers, composite fragments) plus unfinished-construct prefixes x token x closer, random token sequences up to length 16/24, random derivations of the project's own pest grammar read at run time (start rules input/line/stm/expr/function/match/type/only_var/slicing; identifiers mapped onto bound names), token-level mutations (delete/duplicate/swap/replace/insert) of the README, docs and example scripts, the operator x operand-type matrix (every unary/postfix/statement template, every infix and assignment operator and 28 two-operand templates applied to parameters of 60 types incl. `!`, `any` and unions of arrays, tuples, structs, muts, functions and iterators), the same matrix over operands that are constants of a union static type and over operands whose type shrinks to `!` when a constant condition is folded away (`[v1, v2][k]`: every unary template x every catalogue value, every infix operator x all pairs of values of 30 scalar / union / any operand types), tape-generated typed programs of six profiles as they are and with token-level edits, a catalogue of names rebound from their own old (non-constant) value to a value of another type in every kind of body, 18 binding constructs x uses of the bound name after the construct, 33 spellings of integer literals in 30 positions, 10 always-failing constant operations in 28 syntactic positions, and imports of 13 file states (missing, directory, syntax error, type error, folding error, non-UTF-8, nested, empty, top-level return/break) in 11 positions, files that use names of their importer under importers that declare those names as cells, constants, parameters, at other types or not at all (both orders within one process), and (in a child process, whose death is the verdict) files that import themselves directly or through one or two others under several spellings of the path, next to diamonds and repeated imports; and, one fresh process per text, 13 operators whose helpers the library builds on first use inside 30-140 levels of arrays, blocks, ifs and tuples (a depth that exhausts nothing). Oracle: no panic. Non-trivial = the text passes the grammar (reaches instruction construction); distinct by text.",
         false,
         &["inputs nested deeper than 40 brackets and imports outside the scratch directory are discarded and counted",
           "the working directory of the check process is a scratch directory"],
